@@ -883,6 +883,13 @@ def check_C16(tier, seed):
                                "\n\n  \t" + text, text + "  \n\n\t ", " " + text.rstrip("\n"), text.replace("\n", "\n\n") + "\x0c\x0b"]):
             cases.append({"id": "src-real-%03d-%d" % (i, j), "family": "source-real", "wgsl": v, "opts": F.opts(rustfmt=(j % 2 == 1))})
             cases.append({"id": "src-real-%03d-%d-inc" % (i, j), "family": "source-real-include", "wgsl": v, "opts": F.opts(include="dir with space/sh\\ader\"%d.wgsl" % j)})
+    # long sources with dense multi-byte text (any chunked / buffered handling of the literal), include paths with outer whitespace
+    for i, (a, b) in enumerate([("\u00e9", 5000), ("\U0001F600x", 2500), ("a\u00e9\u6570\U0001F600", 3000), ("\u6570", 1366), ("xy\u00e9", 1365)]):
+        text = (a * b)[: b * len(a)]
+        cases.append({"id": "src-long-%d" % i, "family": "source-long", "S": F.source_shader(text), "opts": F.opts(rustfmt=(i % 2 == 1))})
+    for i, pth in enumerate([" shader.wgsl", "shader.wgsl ", "shader.wgsl\n", "\tshader.wgsl", "\u3000shader.wgsl", "\u00a0x.wgsl\u00a0", " ", "./a/../shader.wgsl", "shader.wgsl\r\n"]):
+        cases.append({"id": "src-path-%d" % i, "family": "source-include-paths", "S": F.source_shader("p"), "opts": F.opts(include=pth)})
+        cases.append({"id": "src-path-%d-emb" % i, "family": "source-include-paths", "S": F.source_shader("p"), "opts": F.opts()})
     drive_and_judge(rep, "C16", cases, "static", ["source", "nosource_sha"])
     # a sample goes through rustc: SOURCE evaluated by the compiler and handed to the (recording) device
     sample = [c for c in cases if "include" not in c["opts"]][::(30 if quick else 8)]
